@@ -9,18 +9,28 @@ class [..], group, '|', concatenation, '*', '+', '?'} rendered to text with the 
 (ref/regexsem.render).  The real parser + derivative construction + compile() build the DFA tables
 concretely for each expression.
 
-Symbolic (decided by the solver): the INPUT STRING.  N characters, each any code point of ppci's
-declared alphabet regex.SIGMA = [0, 255].  The real table-walking code (scanner.pick_transition:
-bisect over the sorted transition table) runs on symbolic code points; its comparisons fork into
-character classes, so one path stands for a whole class of strings.  On every path the solver proves
+Symbolic (decided by the solver): the INPUT STRING / CHARACTER.  Every character is any code point of
+ppci's declared alphabet regex.SIGMA = [0, 255].  Three harness families per compiled table:
 
-  full match   for every prefix length j reached: accept_states[state after j chars] <=> s[:j] in L(e)
-               and, once the DFA is in its error state, no extension of the prefix is in L(e)
-               (the scanner stops there); one harness of length N therefore covers all lengths 0..N
-  scanner      the token list produced by scan()/Scanner.scan() is the maximal-munch tokenisation:
-               every token is in the language of some expression, no longer prefix is, the reported name
-               is the first expression (definition order) matching the token, "No match!" is raised
-               exactly where no non-empty prefix of the rest matches, and a clean end consumed everything
+  pick_transition   the real table walker scanner.pick_transition(table, q, c) (bisect over the sorted row)
+                    for EVERY state q of the real table and a symbolic character c; its comparisons fork
+                    into character classes; proven: it returns the target of the unique entry
+                    (first, last, next) with first <= c <= last, i.e. the rows are total and deterministic
+                    over 0..255 and the walker implements the table semantics
+  full match        symbolic string of N characters, no forks: the state after j characters is the
+                    if-then-else term delta(...delta(0, s[0])..., s[j-1]) over the REAL table (table
+                    semantics, tied to the real walker by the harness above); proven for every j = 0..N:
+                    accept_states[state_j] <=> s[:j] in L(e), and state_j == error_state => no extension
+                    of s[:j] is in L(e) (the scanner stops there).  (ppci has no whole-string match
+                    function; walking the table char by char is what scan() does.)
+  scanner           the REAL scan loops scanner.scan()/Scanner.scan() on a symbolic string, with
+                    pick_transition summarised per target state (one fork per distinct next state; premise
+                    proven by the first family on the same table, in the same job, before the scan harness
+                    runs); proven on every path: the token list is the maximal-munch tokenisation - every
+                    token is the input slice and in the language of the named expression, the name is the
+                    first definition matching it, no longer prefix matches any definition, "No match!" is
+                    raised exactly where no non-empty prefix of the rest matches, a clean end consumed
+                    everything.
 
 where "in L(e)" is the formula built by ref/regexsem (set-of-end-positions matcher over the generator's
 AST) over the symbolic code points.  regexsem itself is validated against Python's re.fullmatch on
@@ -41,10 +51,10 @@ from ref import regexsem
 PROPERTY = "C31"
 LEVEL = "model_checking"
 BOUNDS = {
-    "quick": {"expressions": "all ASTs of size <= 3 over 5 atoms + seeded sample of sizes 4..6 (about 300)",
+    "quick": {"expressions": "'' + all 155 ASTs of size <= 3 over 5 atoms (a, b, '.', [a-c], \\*) + 150 seeded samples of sizes 4..6 over 27 atoms",
               "string length (full match)": "0..6, every char symbolic in 0..255",
               "scanner": "string length 4 symbolic (3 for the 4-token vector); every 3rd non-nullable expression, 2/3-token vectors"},
-    "thorough": {"expressions": "all ASTs of size <= 4 over 5 atoms + seeded sample of sizes 5..7 (a few thousand)",
+    "thorough": {"expressions": "'' + all 1075 ASTs of size <= 4 over 5 atoms + 1500 seeded samples of sizes 5..7 over 27 atoms",
                  "string length (full match)": "0..8, every char symbolic in 0..255",
                  "scanner": "string length 5 symbolic (4 for the 4-token vector); every 2nd non-nullable expression, 2/3-token vectors"},
 }
@@ -67,6 +77,12 @@ ASSUMPTIONS = [
     "(Lib/bisect.py algorithm) so that the comparisons are visible to the engine; the tuple comparison "
     "(char,) < (first, last, next) inside it is evaluated as one lexicographic-order condition",
     "compile() is deterministic for a given expression (DFA tables are built once per harness and reused on every path)",
+    "compositional step: full-match and scanner harnesses use the table semantics 'next state = target of the entry "
+    "containing the char'; that the real pick_transition implements exactly this on every state of the same table is "
+    "proven by the pick_transition harness (same job) rather than assumed",
+    "ties between token definitions matching the same longest token go to the first definition (lex convention; "
+    "what Scanner.scan's accept[0] implements)",
+    "a DFA construction that does not finish within 60 s is reported as a violation (CompileTimeout), not waited for",
 ]
 SHIMS_USED = ["isinstance", "ord"]
 JOB_TIMEOUT = {"quick": 600, "thorough": 2400}
@@ -180,7 +196,7 @@ def expressions(tier, seed):
     for s in range(1, exhaustive_to + 1):
         out += all_asts(s, BASE_ATOMS, memo)
     rng = random.Random(1000003 * seed + (1 if tier == "quick" else 2))
-    n_sample = 150 if tier == "quick" else 2000
+    n_sample = 150 if tier == "quick" else 1500
     sizes = (4, 5, 6) if tier == "quick" else (5, 6, 7)
     seen = {regexsem.render(a) for a in out}
     tries = 0
@@ -202,7 +218,7 @@ def token_vectors(tier, seed):
     small = [a for s in (1, 2) for a in all_asts(s, BASE_ATOMS, memo) if not regexsem.nullable(a)]
     mid = [a for a in all_asts(3, BASE_ATOMS, memo) if not regexsem.nullable(a)]
     rng = random.Random(7919 * seed + (11 if tier == "quick" else 12))
-    n2, n3 = (40, 8) if tier == "quick" else (400, 100)
+    n2, n3 = (40, 8) if tier == "quick" else (300, 60)
     out = [
         [["plus", ["cls", [[A, ord("z")]]]], ["plus", ["lit", 32]], ["cls", [[61, 61], [45, 45], [43, 43]]],
          ["plus", ["cls", [[48, 57]]]]],                    # the baseline test's identifier/space/operator/number
@@ -390,8 +406,8 @@ class TransitionHarness(_RegexHarness):
         q, nxt = out.value
         transitions, accepts, error = self.compiled()[1]
         row = transitions[q]
-        return {"returns-target-of-the-entry-containing-char": nxt == row_lookup(row, i["c"]),
-                "exactly-one-entry-contains-char": row_hits(row, i["c"]) == 1,
+        return {"returns-target-of-the-unique-entry-containing-char":
+                sym_and(nxt == row_lookup(row, i["c"]), row_hits(row, i["c"]) == 1),
                 "target-is-a-state": sym_and(nxt >= 0, nxt < len(transitions))}
 
 
@@ -501,9 +517,11 @@ class ScanHarness(_RegexHarness):
             e = p + len(tcps)
             if e <= p or e > self.n:
                 return {f"token[{k}]-non-empty-and-inside-input": False}
-            posts[f"token[{k}]-is-slice-in-language-of-first-matching-definition"] = sym_and(
-                *[x == y for x, y in zip(tcps, cps[p:e])], m.matches(self.asts[idx], p, e),
-                sym_not(sym_or(*[m.matches(a, p, e) for a in self.asts[:idx]])) if idx else True)
+            posts[f"token[{k}]-is-input-slice-in-language-of-named-definition"] = sym_and(
+                *[x == y for x, y in zip(tcps, cps[p:e])], m.matches(self.asts[idx], p, e))
+            if idx:
+                posts[f"token[{k}]-name-is-first-matching-definition"] = \
+                    sym_not(sym_or(*[m.matches(a, p, e) for a in self.asts[:idx]]))
             posts[f"token[{k}]-is-longest-match"] = \
                 sym_not(sym_or(*[match_any(p, e2) for e2 in range(e + 1, self.n + 1)])) if e < self.n else True
             p = e
@@ -574,10 +592,26 @@ def _known():
     return load_known(os.path.join(root, "known_findings.json"), PROPERTY)
 
 
+_STRINGS = []
+
+
 def _selftest(asts, name):
-    bad = regexsem.selftest(asts)
-    return [dict(kind="reference-selftest", harness=name,
-                 error=f"regexsem disagrees with re.fullmatch: regex {t!r} string {s!r}: {w}") for t, s, w in bad[:5]]
+    """reference self-test (not the deciding step): regexsem vs. Python's re.fullmatch on concrete strings.
+    Python's backtracking matcher needs exponential time on a few shapes ('((((a?)?)+)+)+' on 'aab'):
+    those expressions are skipped after a deadline."""
+    if not _STRINGS:
+        _STRINGS.extend(regexsem.selftest_strings())
+    errs = []
+    for a in asts:
+        try:
+            bad = _with_deadline(lambda: regexsem.selftest_one(a, _STRINGS), 10)
+        except CompileTimeout:
+            continue
+        if bad and len(errs) < 5:
+            t, s, w = bad
+            errs.append(dict(kind="reference-selftest", harness=name,
+                             error=f"regexsem disagrees with re.fullmatch: regex {t!r} string {s!r}: {w}"))
+    return errs
 
 
 def chunk_fullmatch(tier, seed, lo, hi, n):
